@@ -81,15 +81,27 @@ void harness(void) {
     bool eq = spans_equal(REL[r].a1, REL[r].l1, REL[r].a2, REL[r].l2);
     ASSUME(REL[r].equal ? eq : !eq);
   }
+#ifdef RELATIVE
+  int wd = vfs_add("/w", -1, VK_DIR);
+  int f = vfs_add("/w/f", wd, VK_FILE);
+#else
   int f = vfs_add("/f", -1, VK_FILE);
+#endif
   vfs_set(f, FILEB, FLEN);
+  vfs_set_lines(f, LINE_ENDS, NLINES);      /* every symbolic character is constrained to differ from NL above */
   vfs_commit();
 
   econf_file *ef = NULL;
   econf_err e = econf_newKeyFile_with_options(&ef, OPTS);
   ASSUME(e == ECONF_SUCCESS && ef != NULL);
+#ifdef RELATIVE
+  const char *path = VP("/w/f");      /* what the library must report: the absolute path */
+  NATIVE_ONLY(if (chdir(VP("/w")) != 0) _exit(99);)
+  e = read_file_with_callback(&ef, INB(FLEN) ? "f" : "./f", DELIM, COMMENT, NULL, NULL);
+#else
   const char *path = VP("/f");
   e = read_file_with_callback(&ef, path, DELIM, COMMENT, NULL, NULL);
+#endif
 
 #if EXPECT_ERR != 0
   CHECK(e == EXPECT_ERR, "malformed line reported with its specific error code");
@@ -106,6 +118,7 @@ void harness(void) {
   CHECK(e == ECONF_SUCCESS, "conventional file is read successfully");
   if (e != ECONF_SUCCESS) return;
   CHECK(ef != NULL, "object returned");
+  { char *gp = econf_getPath(ef); CHECK(gp != NULL && strcmp(gp, path) == 0, "path query returns the absolute path of the file"); free(gp); }
   /* entries one to one, in file order */
   CHECK(ef->length == NEXP, "exactly the written keys are stored");
   for (int i = 0; i < NEXP; i++) {
